@@ -212,15 +212,8 @@ theorem c07_storage_proof_gen (ext : Ext) (ms : MidState) (fc : V2FileContract) 
 /-! ### non-vacuity: the regenerated rules accept and reject concrete contracts -/
 
 /-- an environment in which every signature verifies and every element is a member -/
-def extAllOk : Ext where
-  ContractSigHash _ _ := ByteArray.empty
-  RenewalSigHash _ _ := ByteArray.empty
-  StorageProofLeafHash _ _ := ByteArray.empty
-  StorageProofLeafIndex _ _ _ _ := 0
-  VerifyHash _ _ _ := true
-  containsChainIndex _ _ := true
-  storageProofRoot _ _ _ _ := ByteArray.empty
-  storageProofSubtreeHeight _ _ := 0
+def extAllOk : Ext :=
+  { Ext.trivial with VerifyHash := fun _ _ _ => true, containsChainIndex := fun _ _ => true }
 
 /-- an environment in which no signature verifies -/
 def extNoSig : Ext := { extAllOk with VerifyHash := fun _ _ _ => false }
